@@ -515,6 +515,24 @@ func (w *sessWorld) leakCheck() {
 		w.viol("C15 library goroutine still alive 10 virtual minutes after everything was closed: "+fn, "%s", st)
 	}
 	w.rec.count("leak_checks", 1)
+	// ownership of everything the (closed) sessions still reference
+	w.mu.Lock()
+	all := append([]*UDPSession(nil), w.sessions...)
+	w.mu.Unlock()
+	for _, m := range w.mons {
+		all = append(all, m.s)
+	}
+	seen := map[*UDPSession]bool{}
+	for _, s := range all {
+		if s == nil || seen[s] {
+			continue
+		}
+		seen[s] = true
+		if msg := sanRefCheck(s); msg != "" {
+			w.viol("C15 session references a pooled buffer after it was recycled", "%s", msg)
+		}
+		w.rec.count("session_buffer_ownership_checks", 1)
+	}
 	if p := schedPending.Load(); p != 0 {
 		w.viol("C15 scheduled callback still pending after everything was closed", "%d callbacks pending 10 virtual minutes after Close", p)
 	}
@@ -949,6 +967,16 @@ func runSessScenario(t *testing.T, rec *vrec, sc *sessScenario, rng *vrng, hooks
 			}
 			time.Sleep(50 * time.Millisecond)
 		}
+		client.mu.Lock()
+		a := client.kcp.WaitSnd()
+		client.mu.Unlock()
+		server.mu.Lock()
+		b := server.kcp.WaitSnd()
+		server.mu.Unlock()
+		if a != 0 || b != 0 {
+			w.viol("C02 sender's backlog did not return to zero although everything was delivered", "10 virtual minutes after the last byte was read: client %s; server %s", sessProgress(client), sessProgress(server))
+		}
+		w.rec.count("session_backlog_drain_checks", 1)
 	}
 	close(stopMon)
 	if hooks.end != nil {
